@@ -4,6 +4,7 @@ import EtVerif.Props.TrC09
 import EtVerif.Props.TrC01
 import EtVerif.Props.TrGo05
 import EtVerif.Props.TrChk
+import EtVerif.Props.TrSrc
 #print axioms EtVerif.C01.l1_contract
 #print axioms EtVerif.C01.F_contract
 #print axioms EtVerif.C01.fixedpoint_exists_unique
@@ -80,3 +81,10 @@ import EtVerif.Props.TrChk
 #print axioms EtVerif.TrChk.update_simulates
 #print axioms EtVerif.TrChk.converged_agrees
 #print axioms EtVerif.TrChk.delta_agrees
+-- basic.Compute translated TOGETHER WITH the convergence checker translated from the source (no hand-written checker
+-- in between) refines the model, under the oracle hypotheses about sqrt on sums of squares
+#print axioms EtVerif.TrSrc.compute_src_refines_ok_partial
+#print axioms EtVerif.TrSrc.compute_src_refines_err_partial
+#print axioms EtVerif.TrSrc.compute_src_refuses_validation
+#print axioms EtVerif.TrSrc.oracleOK_of_forall
+#print axioms EtVerif.TrSrc.go_compute_src_distribution
